@@ -383,7 +383,7 @@ Section LocalInv.
     - eapply set_node_linv; eauto; intros [H1 H2]; split; simpl; auto.
     - intros m Hin. apply in_map_iff in Hin. destruct Hin as [adv [Hp Hadv]]. subst.
       apply In_sort_by in Hadv. apply in_flat_map in Hadv. destruct Hadv as [k [Hk Hadv]].
-      apply In_dedup_keys in Hk.
+      unfold replay_keys in Hk. apply filter_In in Hk. destruct Hk as [Hk _]. apply In_dedup_keys in Hk.
       eapply G_replay; eauto.
       intros e He. apply filter_In in He. destruct He as [He Hnh]. split; [apply Hns; auto|].
       apply negb_true_iff in Hnh. apply N.eqb_neq in Hnh. auto.
